@@ -751,13 +751,28 @@ static void emplace_uint32(uint8_t *buffer, uint32_t d)
 size_t rtosc_bundle(char *buffer, size_t len, uint64_t tt, int elms, ...)
 {
     char *_buffer = buffer;
+    va_list va;
+    va_start(va, elms);
     memset(buffer, 0, len);
+
+    //Abort if the bundle cannot fit
+    {
+        size_t total_len = 16;
+        va_list va2;
+        va_copy(va2, va);
+        for(int i=0; i<elms; ++i)
+            total_len += 4+rtosc_message_length(va_arg(va2, const char*), -1);
+        va_end(va2);
+        if(total_len>len) {
+            va_end(va);
+            return 0;
+        }
+    }
+
     strcpy(buffer, "#bundle");
     buffer += 8;
     emplace_uint64((uint8_t*)buffer, tt);
     buffer += 8;
-    va_list va;
-    va_start(va, elms);
     for(int i=0; i<elms; ++i) {
         const char   *msg  = va_arg(va, const char*);
         //It is assumed that any passed message/bundle is valid
